@@ -31,6 +31,12 @@ namespace vf
     return d;
   }
 
+  inline void remove_scratch()
+  {
+    std::string c = "rm -rf '" + scratch_dir() + "'";
+    if (std::system(c.c_str())) {}
+  }
+
   // Build a world from JSON text. Throws whatever the library throws.
   inline std::unique_ptr<WorldBuilder::World> make_world(const std::string &text, unsigned long seed = 1, const char *slot = "w")
   {
